@@ -52,7 +52,7 @@ def case_strategy(draw):
         c["spelling"] = draw(st.sampled_from(["positional", "positional", "successes=", "trials_first"]))  # both arguments by keyword, in either order
         c["float_counts"] = draw(st.integers(0, 3)) == 0  # integer-valued float columns are valid counts
     elif kind == "prop_invalid":
-        c["what"] = draw(st.sampled_from(["float_successes", "successes_gt_trials", "successes_gt_trials_one_row", "float_successes_one_row", "float_trials", "float_constant", "successes_not_a_name", "missing_success_kept"]))
+        c["what"] = draw(st.sampled_from(["float_successes", "successes_gt_trials", "successes_gt_trials_one_row", "float_successes_one_row", "float_trials", "float_constant", "successes_not_a_name", "missing_success_kept", "large_fraction"]))
     elif kind == "identity":
         c["expr"] = draw(st.sampled_from(["x + z", "x * 2", "x ** 2", "(x + z) / 2", "-x", "x - z * 3", "np.abs(x)", "x > 0"]))
         c["brace"] = draw(st.booleans())
@@ -243,6 +243,12 @@ def judge(ctx, case):
             formula = "prop(s, n) ~ x"
         elif what == "float_constant":
             formula = "prop(s, 40.5) ~ x"
+        elif what == "large_fraction":
+            # 40000.3 successes out of 50000: not an integer, however small the fraction is relative to the count
+            fr["s"] = fr["s"].astype(float)
+            fr.loc[fr.index[0], "s"] = 40000.0 + [0.3, 0.5, 0.25][len(fr) % 3]
+            fr["n"] = fr["n"] + 50000
+            formula = "prop(s, n) ~ x"
         elif what == "missing_success_kept":
             # na_action='pass' keeps the row: a missing count is not an integer number of successes
             fr["s"] = fr["s"].astype(float)
